@@ -1136,7 +1136,7 @@ fn main() {
   let mut k: u64 = 0; // global enumeration index for sharding
 
   // ---- A. exhaustive strings
-  let fams: [(&str, u32); 2] = [("did:m:", if thorough { 6 } else { 5 }), ("did:", if thorough { 6 } else { 4 })];
+  let fams: [(&str, u32); 2] = [("did:m:", if thorough { 7 } else { 5 }), ("did:", if thorough { 6 } else { 4 })];
   for (prefix, maxlen) in fams {
     for len in 0..=maxlen {
       let total = 14u64.pow(len);
